@@ -2,20 +2,21 @@
 # Applies every harmless edit of selftest/harmless to /repo, confirms the repository's suite still passes, runs the
 # checks it could affect (all must stay green), and undoes it.
 cd /verif
+REPO=${REPO:-/repo}
 declare -A PROPS=( [rat_rename_locals]="C17 C19" [hrs_rename_locals]="C16 C19" [mge_rename_and_augassign]="C16 C17 C19" [cm3_rename_and_reorder]="C17 C19"
   [max_rename_reformat]="C19" [vef_unsquash_rename]="C17 C19" [pix_rename]="C19" [util_docstrings]="C16 C19"
   [elements_refactor]="C01 C02 C03 C04 C05 C06 C07 C10 C14" [visitors_refactor]="C02 C05 C06 C10 C11 C12" [parser_refactor]="C04 C08 C09 C14 C15"
   [compiler_refactor]="C06 C11 C12 C13 C15" [procbank_refactor]="C12 C13 C15" )
 for f in ${ONLY:-selftest/harmless/*.diff}; do
   name=$(basename $f .diff)
-  git -C /repo apply /verif/$f || { echo "$name: does not apply"; continue; }
-  suite=$(cd /repo && /venv/bin/python -m pytest -q -p no:cacheprovider --timeout=900 -x 2>&1 | tail -1)
+  git -C $REPO apply /verif/$f || { echo "$name: does not apply"; continue; }
+  suite=$(cd $REPO && PYTHONPATH=$REPO /venv/bin/python -m pytest -q -p no:cacheprovider --timeout=900 -x 2>&1 | tail -1)
   res=""
   for p in ${PROPS[$name]}; do
-    out=$(timeout 3000 ./check $p 2>&1); rc=$?
+    out=$(VERIF_REPO=$REPO timeout 3000 ./check $p 2>&1); rc=$?
     res="$res $p=$rc"
     [ $rc -ne 0 ] && echo "$out" | egrep "^VIOLATION|^CHECKER|^UNDECIDED" | head -3 | cut -c1-260
   done
-  git -C /repo checkout -- .
+  git -C $REPO checkout -- .
   echo "$name: suite[$suite] $res"
 done
